@@ -351,4 +351,47 @@ def preprocessorsOk (cap : Option Int) (h2 : Bool) : VarState → List VStep →
       | .received _ .ok => preprocessorsOk cap h2 s2 rest
       | _ => true
 
+/-! ## the gRPC scenario gun: `PreparePreprocessor`s read the earlier response MESSAGES -/
+
+/-- one call of a gRPC scenario: its configuration, the mappings of its "prepare" preprocessors (in order), what the
+target answers, and the response message as JSON (`request.<name>.postprocessor`: stored only when the call returned a
+message; its content — repeated fields of any length, strings — is chosen by the peer) -/
+structure VCall where
+  name : String
+  cfg : GrpcCallCfg
+  pre : List (String × PreMap) := []
+  reply : GrpcReply
+  post : Option Fields := none
+
+/-- what a call that was made stores under `request.<name>` -/
+def callEntry (pv : Fields) (post : Option Fields) : Fields :=
+  ("preprocessor", .obj pv) :: (match post with | some f => [("postprocessor", .obj f)] | none => [])
+
+/-- `scenario.Gun.shoot` over calls with variables: the preprocessors run first (a panic: the deferred `Report` still
+fires, with code 0, and the shot panics; an error: the call fails before it is made); a call that was made stores its
+response message for the following calls -/
+def shootGrpcScenarioV (cap : Option Int) (scn : String) : VarState → List VCall → ShotResult
+  | _, [] => { reports := [] }
+  | s, v :: rest =>
+    let s1 : VarState := { s with request := (v.name, .obj []) :: s.request }
+    match preprocess cap s1.templateVars v.pre with
+    | .panic _ => { reports := [{ tags := stepTag scn v.cfg.tag, id := 0, proto := 0, net := 0 }], panicked := true }
+    | .ok none => { reports := [{ tags := stepTag scn v.cfg.tag, id := 0, proto := 0, net := 0 }], panicked := false }
+    | .ok (some pv) =>
+      let s2 : VarState := { s with request := (v.name, .obj (callEntry pv v.post)) :: s.request }
+      match stepGrpc scn { tag := v.cfg.tag, outcome := grpcStepOutcome v.cfg v.reply } with
+      | (rs, true, _) => let r := shootGrpcScenarioV cap scn s2 rest; { r with reports := rs ++ r.reports }
+      | (rs, false, p) => { reports := rs, panicked := p }
+
+/-- the same calls with the variable mechanism resolved into the static `GrpcCallKind.prepFails` -/
+def resolveGrpcV (cap : Option Int) : VarState → List VCall → List (GrpcCallCfg × GrpcReply)
+  | _, [] => []
+  | s, v :: rest =>
+    let s1 : VarState := { s with request := (v.name, .obj []) :: s.request }
+    match preprocess cap s1.templateVars v.pre with
+    | .ok (some pv) =>
+      let s2 : VarState := { s with request := (v.name, .obj (callEntry pv v.post)) :: s.request }
+      (v.cfg, v.reply) :: resolveGrpcV cap s2 rest
+    | _ => ({ v.cfg with kind := .prepFails }, v.reply) :: rest.map fun u => (u.cfg, u.reply)
+
 end Pandora.Model.C19
